@@ -127,18 +127,31 @@ def main(tier):
     for v in total.violations:
         rep.add_violation(v)
     rep.internal = total.internal
+    # (R) really nested executors: chains of real processes up to and beyond LOKY_MAX_DEPTH
+    from ..real import c19real
+    rr = c19real.run_all(tier)
+    for sig, msg, cfg in rr["violations"]:
+        rep.add_violation(dict(signature=sig, msg=msg, config=cfg))
     rep.coverage = dict(
-        evaluations=nq + total.executions, distinct_nontrivial=nq + total.executions,
-        samples=samples + total.samples[:2], formula_configurations=nq,
+        evaluations=nq + total.executions + rr["cases"],
+        distinct_nontrivial=nq + total.executions + rr["cases"],
+        samples=samples + total.samples[:2] + rr["samples"][:1], formula_configurations=nq,
+        real_nested_chains=rr["cases"], real_nested_levels=rr["levels"],
+        real_chains_inconclusive=rr["vacuous"], real_chains_retried=rr["retried"],
         simulated_executions=total.executions, states=len(total.states),
         transitions=len(total.transitions), exhaustive=False,
         rule="(Q) full product MAX_DEPTH x depth x start method on the real _check_max_depth and "
              "the real constructor; (S) every execution within deviation bound 1 (P,T) of "
              "programs with timeouts, respawns and resizes, at parent depths 0..3: the "
              "current_depth argument and the worker's private _CURRENT_DEPTH are compared with "
-             "creator depth + 1; all cases distinct")
-    rep.assumptions = ["simulated workers do not nest executors; real nested chains are not part "
-                       "of this check"]
+             "creator depth + 1; (R) the enumerated configurations LOKY_MAX_DEPTH x API "
+             "(ProcessPoolExecutor, get_reusable_executor) x way of obtaining the next worker "
+             "(fresh, reused, respawned after idle timeout, added by resize, replacement of a "
+             "killed pool) x start method, each a chain of really nested executors one level "
+             "beyond the limit: depth seen at every level, refusal exactly at the limit, no "
+             "process spawned by a refused constructor; all cases distinct")
+    rep.assumptions = ["simulated workers do not nest executors: nesting is covered by the real "
+                       "chains (R), which run one free schedule per configuration"]
     code = rep.finish()
     print(f"[C19] tier={tier} formula_configs={nq} executions={total.executions} "
           f"violations={len(rep.violations)}")
